@@ -22,7 +22,7 @@ RULE = ("exhaustive: one record of every length 1..L at every line width 1..W (q
         "only after all fetches are done. Non-trivial = an interval touching or crossing a line break, W = 1, a short last line, "
         ">= 2 records or a description")
 EXHAUSTIVE = {"quick": True, "thorough": True}
-MODEL_OPS = {"index", "fetch", "contig", "genome", "index_chunked"}
+MODEL_OPS = {"index", "fetch", "contig", "genome", "index_chunked", "create_index"}
 PARALLEL = 0
 ASSUMPTIONS = [
     "the OS file is modelled as a byte list (seek/read = drop/take; readinto a zero-filled buffer); LF line ends only (CRLF FASTA is outside C17's quantifier)",
@@ -385,6 +385,13 @@ def cases(tier, rng):
         yield {"op": "index_chunked", "recs": recs, "chunk": rng.choice([48, 64, 90, 128, 160])}
         if rng.random() < 0.3:
             yield {"op": "index", "recs": recs}
+    # 2d. create_index itself on headers that are empty, blank, or start with a blank (name = text before the first whitespace)
+    for _ in range(150 if big else 25):
+        recs = _rand_recs(rng, 10)
+        for r in recs:
+            if rng.random() < 0.5:
+                r["h"] = rng.choice(["", " ", "  \t", " lead", "\tx", " a b", r["h"] + " ", "\x0b"])
+        yield {"op": "create_index", "recs": recs}
     # 3. random multi-record files
     for _ in range(1500 if big else 120):
         # one file in four is several hundred bytes long (offsets beyond one line / one small chunk)
@@ -539,6 +546,11 @@ def _impl(c):
             if keys != [k for k, _ in lengths]:
                 return {"err": "keys-differ", "keys": keys}
             return {"rows": rows, "lengths": lengths, "fai": open(p + ".fai").read()}
+        if op == "create_index":
+            from bionumpy.io.indexed_fasta import create_index
+            idx = create_index(p)
+            return {"rows": [[nm.to_string(), int(ln), int(st), int(cl), int(ll)] for nm, ln, st, cl, ll in
+                             zip(idx.chromosome, idx.length, idx.start, idx.characters_per_line, idx.line_length)]}
         if op == "index_chunked":
             # the library's own create_index, made to read the file in several chunks by lowering the default
             # chunk size of the reader it calls (read_chunks() is called without arguments there)
@@ -605,8 +617,25 @@ def impl(c):
 
 # ---------------------------------------------------------------- oracle
 
+def _name_before_ws(h):
+    for i, ch in enumerate(h):
+        if ch in " \t\n\r\x0b\x0c\x1c\x1d\x1e\x1f":
+            return h[:i]
+    return h
+
+
 def oracle(c):
     recs = c["recs"]
+    if c["op"] == "create_index":
+        if not all(len(r["seq"]) >= 1 and r["w"] >= 1 and "\n" not in r["h"] and "\r" not in r["h"] for r in recs):
+            return SKIP
+        rows, off = [], 0
+        for r in recs:
+            off += len(r["h"]) + 2
+            lenc = min(r["w"], len(r["seq"]))
+            rows.append([_name_before_ws(r["h"]), len(r["seq"]), off, lenc, lenc + 1])
+            off += len(wrap(r["seq"], r["w"]))
+        return {"rows": rows}
     if not in_domain(recs):
         return SKIP
     op = c["op"]
